@@ -12,6 +12,10 @@ def run(ctx):
     _p12f(ctx)
     _p12g(ctx)
     _p12h(ctx)
+    _p12i(ctx)
+    _p1h(ctx)
+    _tagconst(ctx)
+    _p9g(ctx)
     _p11g(ctx)
     _p10g(ctx)
     _w10c(ctx)
@@ -201,6 +205,158 @@ def _p12h(ctx):
                     'with pure handle clone/drop churn nothing else calls free, and the retired tokens pile up without bound' % (short_fn(name), held[0]),
                     where=g.where(c), sub='free-under-lock.bb%d' % g.nodes[c].bb)
     ctx.floor('P12h', n, 4, 'call sites of MemoryManager::free')
+
+
+def _memstores(g, field):
+    """(node, value expr) of assignments through a pointer to a field named `field`"""
+    out = []
+    for n in g.nodes:
+        if n.id in g.live() and n.kind == 'block':
+            for si, s_ in enumerate(n.stmts):
+                if s_['k'] == 'assign' and s_['pl']['p'] and isinstance(s_['pl']['p'][-1], dict) and s_['pl']['p'][-1].get('f') == field:
+                    out.append((n.id, g.ev_rv(n.inst, s_['rv'], n.id, si)))
+    return out
+
+
+def _p12i(ctx):
+    """a completed cycle records its epoch (otherwise `completed == current` is never true again and no further cycle starts)"""
+    fn = ctx.fn1(r'^memory::MemoryManagerInner::try_freeing$')
+    g = ctx.graph(fn)
+    x = g.x
+    dels = x.inlined(r'memory::ToFree::delete$')
+    drains = x.ext_calls(r'Vec(::<.*>)?::drain$')
+    st = [(n, v) for (n, v) in _memstores(g, 'epoch')]
+    at = ('param', g.root_inst, 2)
+    good = [n for (n, v) in st if g.strip(v) == at]
+    ok = bool(good) and all(x.must(d, set(good)) for d in drains) and all(x.dom(set(drains), n) for n in good)
+    ctx.add('P12i', 'T-MUST', fn, ok, 'a completed reclamation cycle records the epoch it completed' if ok else
+            'try_freeing does not record the completed epoch after deleting the batch: the next cycle can never start and retired memory grows without bound', sub='completed-epoch')
+    # the boolean result: true only after the batch was drained
+    trues = []
+    for n in g.nodes:
+        if n.id in g.live() and n.kind == 'block' and n.inst == g.root_inst:
+            for s_ in n.stmts:
+                if s_['k'] == 'assign' and s_['pl']['l'] == 0 and not s_['pl']['p'] and s_['rv']['k'] == 'use' and s_['rv']['op']['k'] == 'const' and str(s_['rv']['op'].get('v')) == '1':
+                    trues.append(n.id)
+    ok2 = bool(trues) and all(x.dom(set(drains), t) for t in trues)
+    ctx.add('P12i', 'T-DOM', fn, ok2, 'try_freeing reports success only after deleting the batch', sub='result')
+
+
+def _p1h(ctx):
+    """the fullness test compares (head observation - ring size) with the tail: the subtrahend is exactly mask+1 of the head index"""
+    from rules_send import send_entry, _head
+    root = send_entry(ctx)
+    for fl in FLAVOURS:
+        g = ctx.graph(root, fl)
+        x = g.x
+        H = {a.nid for a in _head(x) if a.op == 'load' or a.op in CAS_OPS}
+        n = 0
+        for sid in x.switches():
+            e = g.strip(g.switch_expr(sid))
+            if e[0] != 'bin' or e[1] not in ('Eq', 'Ne'):
+                continue
+            for (p_, q_) in ((e[2], e[3]), (e[3], e[2])):
+                lp = x.loads_in(p_)
+                lq = x.loads_in(q_)
+                if lp and all(a.nid in H for a in lp) and lq and any(a.on('MultiQueue.tail_cache', 'ReaderPos.pos_data') for a in lq) and not any(a.nid in H for a in lq):
+                    n += 1
+                    subs = [s_ for s_ in g.walk(p_) if s_[0] == 'call' and re.search(r'wrapping_sub$', g.call_name(s_[1]) or '')]
+                    ok = False
+                    if len(subs) == 1:
+                        a0, a1 = g.call_args(subs[0][1])
+                        adds = [s_ for s_ in g.walk(a1) if s_[0] == 'call' and re.search(r'wrapping_add$', g.call_name(s_[1]) or '')]
+                        if len(adds) == 1:
+                            b0, b1 = g.call_args(adds[0][1])
+                            is_mask = any(s_[0] == 'fld' and s_[2] == 'CountedIndex.mask' and any('MultiQueue.head' in pp for pp in g.locpaths(('ref', s_))) for s_ in g.walk(b0)) or \
+                                any(s_[0] == 'fld' and s_[2] == 'Transaction.mask' for s_ in g.walk(b0))
+                            ok = is_mask and _const_of(g, b1) == '1' and all(a.nid in H for a in x.loads_in(a0)) and g.strip(a1) == g.strip(adds[0])
+                    ctx.add('P1h', 'T-FLOW', g.nodes[sid].fn, ok, 'fullness test: (observed head - (mask+1)) == tail, with the mask of the head index' if ok else
+                            'the fullness test does not subtract exactly the ring size (mask + 1) of the head index from the observed head: the window is not N', flavour=fl,
+                            where=g.where(sid), sub='window#i%d.bb%d' % (g.nodes[sid].inst, g.nodes[sid].bb))
+                    break
+        ctx.floor('P1h', n, 2, 'fullness tests')
+
+
+def _tagconst(ctx):
+    """tag-bit constants: is_tagged and rm_tag use complementary masks; the initial slot tag has the
+    tag bit set (never-written slots are not dropped and never match a position)"""
+    gi = ctx.graph(ctx.fn1(r'^countedindex::is_tagged$'))
+    gr = ctx.graph(ctx.fn1(r'^countedindex::rm_tag$'))
+    ri = gi.strip(gi.ev_local(gi.root_inst, 0))
+    rr = gr.strip(gr.ev_local(gr.root_inst, 0))
+    ind = tagm = None
+    if ri[0] == 'bin' and ri[1] == 'Ne':
+        l = gi.strip(ri[2])
+        if l[0] == 'bin' and l[1] == 'BitAnd':
+            ind = _const_of(gi, l[3]) or _const_of(gi, l[2])
+    if rr[0] == 'bin' and rr[1] == 'BitAnd':
+        tagm = _const_of(gr, rr[3]) or _const_of(gr, rr[2])
+    ok = ind is not None and tagm is not None and ind.isdigit() and tagm.isdigit() and int(ind) & int(tagm) == 0 and int(ind) | int(tagm) == 2 ** 64 - 1 and int(ind) == int(tagm) + 1
+    ctx.add('P3t', 'T-FLOW', ctx.fn1(r'^countedindex::rm_tag$'), ok, 'tag bit (%s) and count mask (%s) are complementary' % (ind, tagm) if ok else
+            'is_tagged / rm_tag masks are not complementary (tag bit %s, count mask %s)' % (ind, tagm), sub='masks')
+    ni = ctx.graph(ctx.fn1(r'^multiqueue::MultiQueue::<.*>::new_internal$'), 'BCast')
+    inits = [a for a in ni.x.atoms_on('QueueEntry.wraps') if a.op == 'store']
+    ctx.floor('P3t', len(inits), 1, 'initial tag store')
+    for a in inits:
+        v = _const_of(ni, ni.call_args(a.nid)[1])
+        ok2 = v is not None and v.isdigit() and ind is not None and ind.isdigit() and int(v) & int(ind) != 0
+        ctx.add('P3t', 'T-FLOW', ctx.fn1(r'^multiqueue::MultiQueue::<.*>::new_internal$'), ok2, 'never-written slots carry the tag bit (not dropped by the writer / destructor, never equal to a position)' if ok2 else
+                'initial slot tag %s lacks the tag bit: the writer / destructor would drop uninitialised memory of a never-written slot' % v, where=ni.where(a.nid), sub='initial-tag')
+    # the tag test on the receive side masks with the same count mask and compares with the unmodified position
+    rc = ctx.graph(ctx.fn1(r'^multiqueue::InnerRecv::<.*>::try_recv$'), 'BCast')
+    x = rc.x
+    POSOBS = {a.nid for a in x.atoms_on('ReaderPos.pos_data') if a.op == 'load' or a.op in CAS_OPS}
+    n = 0
+    for sid in x.switches():
+        e = rc.strip(rc.switch_expr(sid))
+        if e[0] == 'bin' and e[1] in ('Eq', 'Ne'):
+            for (p_, q_) in ((e[2], e[3]), (e[3], e[2])):
+                lp = [a for a in x.loads_in(p_) if a.on('QueueEntry.wraps')]
+                lq = x.loads_in(q_)
+                if lp and lq and all(a.nid in POSOBS for a in lq):
+                    n += 1
+                    pp = rc.strip(p_)
+                    okm = pp[0] == 'bin' and pp[1] == 'BitAnd' and (_const_of(rc, pp[3]) == tagm or _const_of(rc, pp[2]) == tagm)
+                    arith = [s_ for s_ in rc.walk(q_) if s_[0] in ('bin', 'un')]
+                    ctx.add('P3t', 'T-FLOW', rc.nodes[sid].fn, okm and not arith, 'tag test: (tag & count mask) against the unmodified stream position' if okm and not arith else
+                            'tag test does not compare (tag & count mask) with the unmodified stream position (mask ok=%s, arithmetic on the position=%s)' % (okm, bool(arith)),
+                            where=rc.where(sid), sub='tagtest.bb%d' % rc.nodes[sid].bb)
+                    break
+    ctx.floor('P3t', n, 2, 'tag tests in try_recv')
+    # the pin re-check compares two unmodified observations of the position
+    for sid in x.switches():
+        e = rc.strip(rc.switch_expr(sid))
+        if e[0] == 'bin' and e[1] in ('Eq', 'Ne'):
+            la, lb = x.loads_in(e[2]), x.loads_in(e[3])
+            if la and lb and all(a.nid in POSOBS for a in la + lb) and not any(a.on('QueueEntry.wraps') for a in la + lb):
+                arith = [s_ for s_ in rc.walk(e[2]) if s_[0] in ('bin', 'un')] + [s_ for s_ in rc.walk(e[3]) if s_[0] in ('bin', 'un')]
+                ctx.add('P3t', 'T-FLOW', rc.nodes[sid].fn, not arith, 'pin re-check compares two unmodified position observations' if not arith else
+                        'pin re-check compares a masked / modified value with the position', where=rc.where(sid), sub='recheck.bb%d' % rc.nodes[sid].bb)
+
+
+def _p9g(ctx):
+    """conversions that go through a temporary second handle raise the consumer count before dropping the original"""
+    for nm in (r'^multiqueue::FutInnerRecv::<.*>::into_single$',):
+        fn = ctx.fn1(nm)
+        g = ctx.graph(fn, 'MPMC')
+        x = g.x
+        incs = {a.nid for a in x.atoms_on('ReaderMeta.num_consumers') if a.op == 'fetch_add'}
+        decs = {a.nid for a in x.atoms_on('ReaderMeta.num_consumers') if a.op == 'fetch_sub'}
+        # dropping a receiver handle runs its Drop impl (unsubscribe: count-1); drop glue is not inlined
+        for n_ in x.ext_calls(r'mem::drop$'):
+            ty = (g.nodes[n_].term.get('generics') or [''])[0]
+            if re.search(r'multiqueue::(Fut)?Inner(Uni)?Recv<', ty):
+                decs.add(n_)
+        for nd in g.nodes:
+            if nd.id in g.live() and nd.kind == 'block' and nd.term['k'] == 'drop' and nd.inst == g.root_inst and \
+                    re.search(r'multiqueue::(Fut)?Inner(Uni)?Recv<', nd.term['dty']['s']):
+                decs.add(x.rep(nd.id))
+        tests = {a.nid for a in x.atoms_on('ReaderMeta.num_consumers') if a.op == 'load'}
+        ok = bool(incs) and bool(decs) and all(x.dom(incs, d) for d in decs)
+        # the single-consumer test is made after the original handle was dropped
+        ok2 = bool(tests) and all(x.dom(decs, t) for t in tests if any(x.reaches(d, t) for d in decs)) and any(x.dom(decs, t) for t in tests)
+        ctx.add('P9g', 'T-DOM', fn, ok and ok2, 'into_single: clone (count+1) -> drop the original (count-1) -> test count==1' if ok and ok2 else
+                'into_single does not clone before dropping the original / tests the count before the original is gone (clone first=%s, test after drop=%s)' % (ok, ok2), sub='order')
 
 
 def _p11g(ctx):
